@@ -139,4 +139,19 @@ CHECKS = {
         "required_probes": ["refused_operation", "replica_checked"],
         "assumptions": COMMON_ASSUMPTIONS + ["nil public keys are not generated: the service layer never passes one to the store"],
     },
+    "C13": {
+        "pkg": ".",
+        "test": "TestVerifC13",
+        "level": "exploration",
+        "proc_timeout": "60m",
+        "quick": {"procs": 32, "checks_per_proc": 120},
+        "thorough": {"procs": 64, "checks_per_proc": 1200},
+        "rule": "one case = a writer appending 0..6 metadata and 0..6 message entries (interleaved by the seed) to a multi-member "
+                "group, a second replica receiving them entry by entry, in one batch afterwards, or mixed (simulator-chosen "
+                "deliveries), then every (since, until, reverse) combination over all entries plus the open end and an unknown "
+                "identifier listed on both replicas and both stores; non-trivial = at least one simulator-chosen delivery; distinct = "
+                "distinct hash of the append/delivery trace. scheduler_or_event_steps counts individual listings checked.",
+        "required_probes": ["invalid_range", "all_ranges_checked"],
+        "assumptions": COMMON_ASSUMPTIONS + ["the GroupMetadataList/GroupMessageList RPC wrappers are not driven; they pass since/until/reverse through unchanged"],
+    },
 }
